@@ -295,3 +295,34 @@ Definition chk_total_return (navs : list Q) (total_returns : Q) : bool :=
   approx (total_return_of navs) total_returns && approx (qsub (compound 1 navs) 1) total_returns.
 Definition chk_benchmark_return (prev : Q) (closes : list Q) (r : Q) : bool :=
   approx (qsub (prod1 (bench_returns prev closes)) 1) r && approx (qsub (qdiv (lastq prev closes) prev) 1) r.
+
+(* ---- no look-ahead (C07): the accessors evaluated on the part of the history visible at the moment ---- *)
+From RQ Require Import Model.View.
+Fixpoint obs_eq (a b : obs) : bool :=
+  match a, b with
+  | [], [] => true
+  | Some x :: s, Some y :: t => approx x y && obs_eq s t
+  | None :: s, None :: t => obs_eq s t
+  | _, _ => false
+  end.
+Definition chk_view_bar (bars : list dbar) (ph : vphase) (d : Z) (observed : obs) : bool := obs_eq (bar_dict_bar bars ph d) observed.
+Definition chk_view_snapshot (cal : list Z) (bars : list dbar) (ph : vphase) (d : Z) (observed : obs) : bool := obs_eq (snapshot cal bars ph d) observed.
+Definition chk_view_last (cal : list Z) (bars : list dbar) (ph : vphase) (d : Z) (observed : option Q) : bool :=
+  obs_eq [lazy_last_price cal bars ph d] [observed].
+Definition chk_view_history (cal : list Z) (bars : list hbar) (table : list (Z * Q)) (is_cs no_adjust_kind : bool) (ph : vphase) (d n : Z)
+           (skip : bool) (adj : adjust_type) (expected : list hbar) : bool :=
+  rows_eq (api_history cal bars table is_cs no_adjust_kind ph d n skip adj) expected.
+
+(* ---- isolation (C13) ---- *)
+From RQ Require Import Model.Isolation.
+Definition switches_eqb (a b : switches) : bool :=
+  Bool.eqb (sw_reinvest a) (sw_reinvest b) && Bool.eqb (sw_cash_return a) (sw_cash_return b) && Bool.eqb (sw_t1 a) (sw_t1 b).
+(* the process state a run finds at init: what the previous run left (prev), then boot with this run's configuration *)
+Definition chk_boot (prev cfg observed : switches) (prev_margin_on : bool) (env_is_current : bool) : bool :=
+  let p := boot cfg 1 {| pr_switches := prev; pr_env := 0; pr_cache := [(0, 0)%Z]; pr_margin_on := prev_margin_on; pr_next_id := 0 |} in
+  switches_eqb (pr_switches p) observed && env_is_current && (pr_env p =? 1)%Z && match pr_cache p with [] => true | _ => false end.
+Fixpoint zinsert (x : Z) (l : list Z) : list Z := match l with [] => [x] | y :: t => if (x <=? y)%Z then x :: l else y :: zinsert x t end.
+Definition zsort (l : list Z) : list Z := fold_right zinsert [] l.
+Definition chk_contracts (data : list instr) (und d : Z) (observed : list Z) : bool := zlist_eq (zsort (contracts data und d)) observed.
+Definition chk_find (data : list instr) (id : Z) (found : bool) : bool :=
+  Bool.eqb (match find_instr data id with Some _ => true | None => false end) found.
